@@ -1,6 +1,7 @@
 package main
 
 import (
+	"math"
 	"bytes"
 	"fmt"
 	"strings"
@@ -94,6 +95,12 @@ var floatAtoms = []struct {
 	src string
 	v   float64
 }{{"1", 1}, {"2", 2}, {"0.5", 0.5}, {"2.5", 2.5}, {"10", 10}, {"x", 1.5}, {"3", 3}, {"(2)", 2}, {"4.0", 4}, {"'a'", 97}, {`'\n'`, 10}, {"0x10", 16}, {"1e1", 10}}
+// not-a-number and the infinities, from Go data and from float division inside the template; used as
+// operands of comparisons only (their conversion to an integer is not defined)
+var specialFloatAtoms = []struct {
+	src string
+	v   float64
+}{{"nan", math.NaN()}, {"(zf/zf)", math.NaN()}, {"inf", math.Inf(1)}, {"(0-inf)", math.Inf(-1)}, {"(x/zf)", math.Inf(1)}}
 var strAtoms = []struct{ src, v string }{{`"q"`, "q"}, {"s", "a<b"}, {`"x y"`, "x y"}, {"e", ""}, {"ls[0]", "l0"}}
 
 func atom(src string) *enode { return &enode{op: "atom", src: src, level: lvAtom} }
@@ -217,6 +224,17 @@ func (g *egen) boolean(d int) (*enode, ev) {
 		op := r.Pick([]string{"<", "<=", ">", ">="})
 		l, lv := g.num(d - 1)
 		rt, rv := g.num(d - 1)
+		if r.Chance(35) {
+			sp := specialFloatAtoms[r.Intn(len(specialFloatAtoms))]
+			if sp.v != sp.v {
+				op = r.Pick([]string{"<=", ">=", "<=", ">=", "<", ">"}) // unordered: the negation of < is not >=
+			}
+			if r.Bool() {
+				l, lv = atom(sp.src), ev{k: 'f', f: sp.v}
+			} else {
+				rt, rv = atom(sp.src), ev{k: 'f', f: sp.v}
+			}
+		}
 		a, b := lv.num(), rv.num()
 		var res bool
 		if lv.k == 'i' && rv.k == 'i' {
@@ -392,7 +410,7 @@ func genExprCase(r *h.Rand) h.Case {
 	src := g.print(root, r.Chance(50))
 	p := newProg(r)
 	p.esc = "html"
-	p.vars = sx.L(bind("a", vInt(7)), bind("café", vInt(6)), bind("数", vInt(8)), bind("b", vInt(2)), bind("c", vInt(-3)), bind("n1", vInt(1)), bind("x", vFloat(1.5)),
+	p.vars = sx.L(bind("a", vInt(7)), bind("café", vInt(6)), bind("数", vInt(8)), bind("b", vInt(2)), bind("c", vInt(-3)), bind("n1", vInt(1)), bind("x", vFloat(1.5)), bind("nan", vFloat(math.NaN())), bind("inf", vFloat(math.Inf(1))), bind("zf", vFloat(0)),
 		bind("bi", vInt(9007199254740993)), bind("bj", vInt(9007199254740992)), bind("bm", vInt(9223372036854775807)), bind("bn", vInt(-9223372036854775808)),
 		bind("li", vSliceT(vInt(3), vInt(0), vInt(4))), bind("ls", vSliceT(vStr("l0"), vStr(""), vStr("z"))),
 		bind("st", vT1(5, "B", vSliceI(), vMapI(), vPtr("T1", nil), vInt(0))),
@@ -426,6 +444,11 @@ func evalNode(n *enode) ev {
 			}
 		}
 		for _, a := range floatAtoms {
+			if a.src == n.src {
+				return ev{k: 'f', f: a.v}
+			}
+		}
+		for _, a := range specialFloatAtoms {
 			if a.src == n.src {
 				return ev{k: 'f', f: a.v}
 			}
